@@ -43,3 +43,14 @@ func init() {
 		return 0
 	}
 }
+
+func init() {
+	checks["C12E"] = func(tier string, seed int64) int {
+		c := newCtx("C12E", tier, seed, "translation_validation", nil)
+		defer c.Close()
+		agg, st := NewAgg(), &eqStats{}
+		c.runEquiv(genC12E(tier, seed), "z3", agg, st)
+		agg.Into(c, "")
+		return c.Finish(false)
+	}
+}
